@@ -126,6 +126,22 @@ Proof.
 Qed.
 Print Assumptions C39_randomize_history_witness.
 
+(* ARGUMENTS IN VARIABLES: no generator operation assigns to the variable (or array element) it is given,
+   whatever the history; hence RND(X) with the same negative X reseeds identically every time, also when X
+   has been used as an argument before *)
+Theorem C39_arguments_untouched : forall ops s st, snd (vexec s st ops) = st.
+Proof. exact vexec_store. Qed.
+Print Assumptions C39_arguments_untouched.
+
+Theorem C39_same_variable_reseeds_identically : forall st i f h s1 s2,
+  to_single (var_get st i) = Ok f -> sng_is_zero f = false -> sng_is_neg f = true ->
+  let '(s', st') := vexec s1 st h in
+  st' = st /\
+  vstep s' st' (VRnd i) = ((cycle (sng_mant f), st), Ok (rnd_bytes (cycle (sng_mant f)))) /\
+  snd (vstep s' st' (VRnd i)) = snd (vstep s2 st (VRnd i)).
+Proof. exact same_variable_reseeds. Qed.
+Print Assumptions C39_same_variable_reseeds_identically.
+
 (* non-vacuity: the hypotheses of the theorems above are satisfiable (stated without pinning the
    generator's constants, which the property text does not fix) *)
 Example C39_nonvacuous :
